@@ -469,3 +469,39 @@ def job_reject(job):
     out['samples'] = [{'pair': [p[0], p[1]], 'differ_in': p[2]} for p in pairs[:3]]
     out['distinct'] = len(pairs)
     return out
+
+
+def job_dualkind(job):
+    """dual()/undual(): polarity for r == 0, Hodge for r == 1, an exception for r >= 2; explicit kinds honoured."""
+    out = {'evaluations': 0, 'failures': [], 'samples': [], 'configs': 0}
+    for cfg in job['configs']:
+        try:
+            alg = make_algebra(cfg)
+        except Exception as _e:
+            out['failures'].append({'config': cfg, 'what': 'constructing an admissible algebra raised', 'error': repr(_e)[:100]})
+            continue
+        out['configs'] += 1
+        fr = O.Frame(alg)
+        ks = tuple(alg.indices_for_grades[(1,)]) or (0,)
+        x = mv_from(alg, ks, [F(i + 2) for i in range(len(ks))])
+        for meth, pol, hod in (('dual', 'polarity', 'hodge'), ('undual', 'unpolarity', 'unhodge')):
+            out['evaluations'] += 1
+            got = _safe(lambda: getattr(x, meth)())
+            if alg.r == 0:
+                exp = _safe(lambda: getattr(x, pol)())
+            elif alg.r == 1:
+                exp = _safe(lambda: getattr(x, hod)())
+            else:
+                exp = ('raise', 'any')
+            ok = (got[0] == 'raise') if exp == ('raise', 'any') else (got[0] == exp[0] and (got[0] == 'raise' or O.eq(fr.mv_to_ref(got[1]), fr.mv_to_ref(exp[1]))))
+            if not ok:
+                out['failures'].append({'config': cfg, 'what': f'{meth}() in auto mode does not select {"polarity" if alg.r == 0 else "Hodge duality" if alg.r == 1 else "an error"} for r == {alg.r}',
+                                        'got': str(got)[:150]})
+            for kind, m2 in (('polarity', pol), ('hodge', hod)):
+                out['evaluations'] += 1
+                g2, e2 = _safe(lambda: getattr(x, meth)(kind=kind)), _safe(lambda: getattr(x, m2)())
+                if g2[0] != e2[0] or (g2[0] == 'value' and not O.eq(fr.mv_to_ref(g2[1]), fr.mv_to_ref(e2[1]))):
+                    out['failures'].append({'config': cfg, 'what': f'{meth}(kind={kind}) != {m2}()'})
+    out['samples'] = [{'configs': job['configs'][:3]}]
+    out['distinct'] = out['configs']
+    return out
